@@ -3,7 +3,7 @@
    (|a-b| <= atol + rtol(|a|+|b|)).  `failing` returns 2*id for a disagreement and 2*id+1 for a case the model
    flags as ill-conditioned (a numerator that is a cancelling sum next to the clipping threshold): skipped, counted. *)
 From Coq Require Import List Arith ZArith QArith Qabs Qround Bool.
-From TLV Require Import Base.Shape Base.PyList Base.Tensor Base.Ops Model.Nonneg Model.NonnegSign Model.NonnegOptions Corr.Common.
+From TLV Require Import Base.Shape Base.PyList Base.Tensor Base.Ops Model.Nonneg Model.NonnegSign Model.NonnegFlow Model.NonnegOptions Corr.Common.
 Import ListNotations.
 
 Definition qmat := list (list Q).
@@ -152,6 +152,18 @@ Definition tkhals_entry_fx (T core : tensor Q) (Fs : list qmat) (fixed : option 
              N fixed sp' nm n (t2fx core) (map m2fx Fs) in
   (map fx2q (data (fst r)), map m2q (snd r)).
 
+(* a complete parafac2(nn_modes='all') run of several outer iterations, with the line search inside the loop: the projected tensor of every outer
+   iteration (SVD oracle), the jumps of the line-search iterations and their acceptance are recorded from the implementation's run *)
+Definition p2run_fx (Ts : list (tensor Q)) (w : list Q) (Fs : list qmat) (nip : nat) (nm : bool) (tol : Q)
+           (lines : list (option Q)) (accepts : list bool) : list Q * list qmat :=
+  let Ts' := map t2fx Ts in
+  let T0 := hd (mk (@nil nat) (@nil Z)) Ts' in
+  let r := parafac2 Fxops fxnrm2 (fun it _ => cp_hals_utm Fxops (nth it Ts' T0)) (fun _ _ => cp_hals_utu Fxops) (fun _ M => M)
+             (fun it _ => cp_hals_inner Fxops (nth it Ts' T0) (repeat None 3) (q2fx tol)) (fun _ _ _ => false) [0; 1; 2]%nat nip
+             (fun it => match nth it lines None with Some j => Some (q2fx j) | None => None end) (fun it _ => nth it accepts false)
+             nm (fun _ _ => false) (length Ts) (map q2fx w, map m2fx Fs) in
+  (map fx2q (fst r), map m2q (snd r)).
+
 Definition pair_close (a b : list Q * list qmat) : bool :=
   q_list_close (1 # 100000000000000000000) (1 # 1000000000000000) (fst a) (fst b) &&
   qmats_close (1 # 100000000000000000000) (1 # 1000000000000000) (snd a) (snd b).
@@ -193,6 +205,8 @@ Inductive op :=
 | OCcp (T : tensor Q) (Fs : list qmat) (nn modes : list nat) (n inner : nat)
 (* parafac2(slices, init=(w, Fs, projections), n_iter_max=1, nn_modes='all', linesearch=False, n_iter_parafac=nip): T = recorded projected tensor *)
 | OP2Iter (T : tensor Q) (w : list Q) (Fs : list qmat) (nip : nat) (nm : bool) (tol : Q)
+(* parafac2(slices, init=(w, Fs, projections), n_iter_max=length Ts, nn_modes='all', linesearch=True|False, tol=0): complete runs of several outer iterations *)
+| OP2Run (Ts : list (tensor Q)) (w : list Q) (Fs : list qmat) (nip : nat) (nm : bool) (tol : Q) (lines : list (option Q)) (accepts : list bool)
 (* _BroThesisLineSearch.line_step extrapolation + clipping *)
 | OLine (nn : list nat) (jump : Q) (last cur : list qmat)
 (* the same three entry points called with RAW options (fixed_modes incl. None and the last mode, nn_modes 'all' / None / list, sparsity None / scalar / list):
@@ -202,7 +216,10 @@ Inductive op :=
 | OTkHalsE (T core : tensor Q) (Fs : list qmat) (fixed : option (list nat)) (sp : @sp_opt Q) (csp : Q) (nm : bool) (feps lr : Q) (betas : list Q) (n : nat) (tol : Q)
 (* corr:C10-static -- the body of an entry point, regenerated from the current Python source by the ast translator (harness/props/C10_sign.py):
    the sign analysis of Model/NonnegSign.v must establish that the returned decomposition is entrywise >= 0 (verdict 0) *)
-| OSign (prog : list stmt) (a0 : aenv) (ret : sx).
+| OSign (prog : list stmt) (a0 : aenv) (ret : sx)
+(* corr:C10-flow -- the STRUCTURED body (loops, branches, inlined closures / callees / methods) regenerated from the current source:
+   the flow-sensitive analysis of Model/NonnegFlow.v must return verdict 0 *)
+| OFlow (c : cmd) (a0 : aenv).
 
 Inductive out := OutMats (w : list Q) (Fs : list qmat) | OutSkip.
 
@@ -268,6 +285,10 @@ Definition run (o : op) : out :=
       let a := p2iter_fx T w Fs nip nm (tol * (999999 # 1000000)) in
       let b := p2iter_fx T w Fs nip nm (tol * (1000001 # 1000000)) in
       if pair_close a b then OutMats (fst a) (snd a) else OutSkip
+  | OP2Run Ts w Fs nip nm tol lines accepts =>
+      let a := p2run_fx Ts w Fs nip nm (tol * (999999 # 1000000)) lines accepts in
+      let b := p2run_fx Ts w Fs nip nm (tol * (1000001 # 1000000)) lines accepts in
+      if pair_close a b then OutMats (fst a) (snd a) else OutSkip
   | OLine nn jump last cur => OutMats [] (line_step Qops nn jump last cur)
   | OMuCpE eps T w Fs nm fixed n =>
       (* non_negative_parafac_entry unfolded (the conditioning test needs the mode list): same parsing functions *)
@@ -281,6 +302,7 @@ Definition run (o : op) : out :=
       let b := tkhals_entry_fx T core Fs fixed sp csp nm feps lr betas n (tol * (1000001 # 1000000)) in
       if pair_close a b then OutMats (fst a) (snd a) else OutSkip
   | OSign prog a0 ret => OutMats [inject_Z (Z.of_nat (sign_verdict prog a0 ret))] []
+  | OFlow c a0 => OutMats [inject_Z (Z.of_nat (flow_verdict c a0))] []
   end.
 
 Definition case := (nat * op * Q * list Q * list qmat)%type.   (* id, call, atol, implementation's weights/core/vector, matrices *)
